@@ -1,21 +1,25 @@
 ---------------------------- MODULE CompilerSlots ----------------------------
 (***************************************************************************)
 (* Mechanism layer: a transcription of augment_classes + assign_slots        *)
-(* (detail/compiler.hpp) for one-parameter methods.  TLC checks, for every  *)
-(* lattice of the bounded universe and every placement of methods, the       *)
+(* (detail/compiler.hpp).  What takes a slot is a (method, virtual parameter) *)
+(* pair placed on the parameter's class: a method with n virtual parameters  *)
+(* contributes n entries, several entries may sit on one class (m(A, A), or   *)
+(* several methods on A: up to MaxMult per class).  TLC checks, for every     *)
+(* lattice of the bounded universe and every placement of entries, the        *)
 (* declarative statement CellsDisjoint of C04/C08: in every class the slots  *)
-(* of the methods applicable to it are distinct and inside its v-table.      *)
+(* of the entries applicable to it are distinct and inside its v-table.       *)
 (* Closed = TRUE models the code (base lists closed transitively, as         *)
 (* augment_classes does since the repair of D4); Closed = FALSE keeps the    *)
 (* lists as registered with direct bases only and exhibits the collision.    *)
 (***************************************************************************)
 \* prototype of the mechanism model: augment_classes + assign_slots (compiler.hpp), uni-methods only
 EXTENDS Integers, Sequences, FiniteSets, TLC, SequencesExt, FiniteSetsExt
-CONSTANTS N, Closed   \* Closed = TRUE: base lists transitively closed (post-fix / use_classes), FALSE: direct bases only
+CONSTANTS N, Closed,  \* Closed = TRUE: base lists transitively closed (post-fix / use_classes), FALSE: direct bases only
+          MaxMult     \* how many (method, virtual parameter) pairs may sit on one class: m(A, A), or several methods on A
 Class == 1..N
 PossibleEdges == {e \in Class \X Class : e[1] > e[2]}
-VARIABLES edges, mset
-vars == <<edges, mset>>
+VARIABLES edges, mset, mult
+vars == <<edges, mset, mult>>
 
 RECURSIVE AncOf(_, _)
 AncOf(E, c) == {c} \cup UNION {AncOf(E, e[2]) : e \in {x \in E : x[1] = c}}
@@ -99,12 +103,18 @@ Assign(E, ms) ==
 
 Init == /\ edges \in {E \in SUBSET PossibleEdges : Reduced(E)}
         /\ mset \in (SUBSET Class) \ {{}}
+        /\ mult \in [Class -> 1..MaxMult]
+        /\ \A c \in Class \ mset : mult[c] = 1
 Next == UNCHANGED vars
 Spec == Init /\ [][Next]_vars
 
 CellsDisjoint ==
   LET ms == SetToSeq(mset)   \* some fixed order
-      ms2 == SortSeq(ms, LAMBDA a, b : a < b)
+      ms1 == SortSeq(ms, LAMBDA a, b : a < b)
+      \* every class of mset as many times as pairs sit on it
+      RECURSIVE Rep(_)
+      Rep(q) == IF q = <<>> THEN <<>> ELSE [i \in 1..mult[Head(q)] |-> Head(q)] \o Rep(Tail(q))
+      ms2 == Rep(ms1)
       st == Assign(edges, ms2)
   IN \A c \in Class :
        LET app == {k \in 1..Len(ms2) : ms2[k] \in AncOf(edges, c)} IN
